@@ -781,6 +781,57 @@ def boundary_slices(repo, cls, fn, loop, tables, report_ok, report_bad):
                     '%s[%s]' % hi if hi else U(n.upper)))
 
 
+def _partition_tables(fn):
+    """Names bound to `np.split(x, np.cumsum(W)[..])`: the list of
+    consecutive blocks of x with the widths W (a last, surplus block
+    included)."""
+    out = {}
+    for a in ast.walk(fn):
+        if isinstance(a, ast.Assign) and len(a.targets) == 1 and isinstance(
+                a.targets[0], ast.Name) and isinstance(a.value, ast.Call) \
+                and U(a.value.func) in ('np.split', 'numpy.split') \
+                and len(a.value.args) >= 2 and any(
+                    isinstance(c, ast.Call) and U(c.func) in (
+                        'np.cumsum', 'numpy.cumsum')
+                    for c in ast.walk(a.value.args[1])):
+            out[a.targets[0].id] = a.value
+    return out
+
+
+def partition_blocks(repo, cls, fn, loop, parts, report_ok, report_bad):
+    """Blocks taken from a partition `P = np.split(x, np.cumsum(W))`: inside
+    the loop over the elements the k-th element reads P[k], k being the
+    loop's own index."""
+    if not parts:
+        return
+    construct = '%s.%s' % (cls, fn.name) if cls else fn.name
+    idx = None
+    if isinstance(loop.iter, ast.Call) and U(loop.iter.func) == 'enumerate' \
+            and isinstance(loop.target, ast.Tuple) and isinstance(
+                loop.target.elts[0], ast.Name):
+        idx = loop.target.elts[0].id
+    elif isinstance(loop.iter, ast.Call) and U(loop.iter.func) == 'range' \
+            and isinstance(loop.target, ast.Name):
+        idx = loop.target.id
+    for n in ast.walk(loop):
+        if not (isinstance(n, ast.Subscript) and isinstance(
+                n.value, ast.Name) and n.value.id in parts):
+            continue
+        if _innermost_loop(n, fn) is not loop:
+            continue
+        where = repo.loc(n, cls, fn.name)
+        if idx is not None and U(n.slice) == idx:
+            report_ok(where, construct,
+                      'element k reads block k of the partition `%s`' % U(
+                          parts[n.value.id])[:50])
+        else:
+            report_bad(
+                where, construct, 'partition block %s' % U(n)[:30],
+                '`%s` does not take the block of the loop\'s own element '
+                'from the partition `%s`' % (U(n), U(
+                    parts[n.value.id])[:50]))
+
+
 def scoped(name, classes=None, files=None, floor=1):
     """R05.4 restricted to some classes / files (same rule, own floor)."""
     def rule(ctx, repo):
@@ -809,6 +860,7 @@ def r05_4(ctx, repo, classes=None, files=None, floor=24):
         fn = desugar_slices(fn)
         zeros = _zero_inits(fn)
         tables = _cumulative_tables(fn)
+        parts = _partition_tables(fn)
         for loop in ast.walk(fn):
             if isinstance(loop, ast.For):
                 before = len(ctx.obligations)
@@ -817,6 +869,7 @@ def r05_4(ctx, repo, classes=None, files=None, floor=24):
                 extra_checks(repo, cls, fn, loop, zeros, ok, bad)
                 merge_accumulators(repo, cls, fn, loop, ok, bad)
                 boundary_slices(repo, cls, fn, loop, tables, ok, bad)
+                partition_blocks(repo, cls, fn, loop, parts, ok, bad)
                 if len(ctx.obligations) > before:
                     n_loops += 1
     if n_loops < floor:
